@@ -7,18 +7,28 @@ func (cw *CodeWriter) WriteLeadingComments(comments []string) {
 
 	for i, comment := range comments {
 		isComment := len(comment) > 0
-		if i == 0 {
+		if cw.Builder.Len() == 0 {
+			// Nothing written yet: leading blank lines and the separating space
+			// would be trimmed from the output, so they are not written
+			if !isComment {
+				continue
+			}
+		} else if i == 0 {
 			if isComment {
-				cw.Builder.WriteRune(' ')
+				cw.writeLayout(" ")
 			}
 		} else {
 			cw.writeNewline()
 			cw.writeIndent()
 		}
 		if isComment {
-			cw.Builder.WriteString("//")
+			cw.writeLayout("//")
 		}
-		cw.Builder.WriteString(comment)
+		cw.writeLayout(comment)
+	}
+
+	if cw.Builder.Len() == 0 {
+		return
 	}
 
 	// Clear pendings and move to the next line
